@@ -946,9 +946,23 @@ func ruleDivZero(c *Ctx, r *Report, rule string, strict bool) {
 		r.bad(rule, "vm", err.Error(), "")
 		return
 	}
-	arm := vm.Arms["opDIV"]
+	// DIV, and every other opcode under whose case the arithmetic helper divides integers (a remainder operator, say)
+	ops := []string{"opDIV"}
+	for _, op := range c.delegatedDivOps() {
+		if op != "opDIV" {
+			ops = append(ops, op)
+		}
+	}
+	for _, opName := range ops {
+		c.divZeroArm(r, rule, strict, vm, opName)
+	}
+}
+
+func (c *Ctx) divZeroArm(r *Report, rule string, strict bool, vm *vmModel, opName string) {
+	short := strings.TrimPrefix(opName, "op")
+	arm := vm.Arms[opName]
 	if arm == nil {
-		r.bad(rule, "DIV", "no VM arm", "")
+		r.bad(rule, short, "no VM arm", "")
 		return
 	}
 	calls, bad := 0, ""
@@ -989,5 +1003,63 @@ func ruleDivZero(c *Ctx, r *Report, rule string, strict bool) {
 			errPath = true
 		}
 	}
-	r.check(calls > 0 && bad == "" && errPath, rule, "DIV", "the division is dominated by the int-zero-divisor check on the divisor alone", "DIV: "+bad+map[bool]string{true: "", false: " (no error path for an int zero divisor)"}[errPath], c.pos(arm.Clause.Pos()))
+	r.check(calls > 0 && bad == "" && errPath, rule, short, "the division is dominated by the int-zero-divisor check on the divisor alone", short+": "+bad+map[bool]string{true: "", false: " (no error path for an int zero divisor)"}[errPath], c.pos(arm.Clause.Pos()))
+}
+
+// delegatedDivOps: the opcodes under whose `case` a function of divDelegated
+// performs an integer division or remainder by a non-constant.
+func (c *Ctx) delegatedDivOps() []string {
+	ops := constsOfType(c.Bcl, "opcode")
+	seen := map[string]bool{}
+	var out []string
+	for name := range divDelegated {
+		_, fd := c.find(name)
+		if fd == nil || fd.Body == nil {
+			continue
+		}
+		pm := parentMap(fd.Body)
+		ast.Inspect(fd.Body, func(n ast.Node) bool {
+			be, ok := n.(*ast.BinaryExpr)
+			if !ok || (be.Op != token.QUO && be.Op != token.REM) {
+				return true
+			}
+			t := c.typeOf(be.Y)
+			if t == nil {
+				return true
+			}
+			if b, ok := t.Underlying().(*types.Basic); !ok || b.Info()&types.IsInteger == 0 {
+				return true
+			}
+			if c.constOf(be.Y) != nil {
+				return true
+			}
+			found := false
+			for p := pm[ast.Node(be)]; p != nil; p = pm[p] {
+				cc, ok := p.(*ast.CaseClause)
+				if !ok {
+					continue
+				}
+				for _, e := range cc.List {
+					if v, isC := c.intConst(e); isC && isNamed(c.typeOf(e), bclPath, "opcode") {
+						nm := constNameOf(ops, v)
+						found = true
+						if !seen[nm] {
+							seen[nm] = true
+							out = append(out, nm)
+						}
+					}
+				}
+				if found {
+					break
+				}
+			}
+			if !found && !seen["?"] {
+				seen["?"] = true
+				out = append(out, "?"+c.pos(be.Pos()))
+			}
+			return true
+		})
+	}
+	sort.Strings(out)
+	return out
 }
